@@ -50,10 +50,46 @@ theorem slice_rejects_bad_step (start stop : Option Int) (s : Int) (hs : s ≤ 0
   unfold mkSlice
   by_cases h0 : s = 0
   · subst h0
-    cases start <;> cases stop <;> simp <;> (try split) <;> simp_all
-  · have : s < 0 := by omega
-    have hn : ¬ (s ≥ 0) := by omega
+    split <;> simp
+  · have hn : noneOrNonneg (some s) = false := by simp [noneOrNonneg]; omega
     simp [hn, hs]
+
+example : mkSlice (some 1) (some (-2)) (some 0) = .valueError := by decide
+
+/-- the step is `None` or an integer `≥ 1` -/
+def GoodStep (step : Option Int) : Prop := ∀ s, step = some s → 1 ≤ s
+
+theorem goodStep_getD {step : Option Int} (h : GoodStep step) : 1 ≤ step.getD 1 := by
+  cases step with
+  | none => simp
+  | some s => simpa using h s rfl
+
+/-- what `Slice.__init__` builds for a good step: `islice` when no index is negative, the
+negative-index generator otherwise -/
+theorem mkSlice_good (start stop step : Option Int) (hs : GoodStep step) :
+    mkSlice start stop step =
+      if noneOrNonneg start && noneOrNonneg stop
+      then .islice (start.getD 0).toNat (stop.map Int.toNat) ((step.getD 1).toNat)
+      else .negative start stop (step.getD 1).toNat := by
+  have h1 := goodStep_getD hs
+  have hnn : noneOrNonneg step = true := by
+    cases step with
+    | none => rfl
+    | some s => have := hs s rfl; simp [noneOrNonneg]; omega
+  have h0 : step ≠ some 0 := by
+    intro h; have := hs 0 h; omega
+  have h2 : ¬ (step.getD 1 ≤ 0) := by omega
+  unfold mkSlice
+  simp only [hnn, Bool.and_true, h0, if_false, h2]
+
+/-- a step that is `None` or `≥ 1` is accepted, whatever `start` and `stop` are -/
+theorem slice_accepts_good_step (start stop step : Option Int) (hs : GoodStep step) :
+    mkSlice start stop step ≠ .valueError := by
+  rw [mkSlice_good start stop step hs]
+  split <;> simp
+
+example : GoodStep (some 3) := by intro s h; cases h; decide
+example : mkSlice (some (-3)) none (some 2) = .negative (some (-3)) none 2 := by decide
 
 /-! ### `pySlice` in transparent index form -/
 
@@ -157,5 +193,168 @@ theorem runNegative_pos_neg (a k : Nat) (hk : 0 < k) (xs : List α) :
     have h4 : xs.length - k - a = xs.length - a - k := by omega
     have h5 : xs.length - (a + k) = xs.length - a - k := by omega
     simp only [h3, h4, h5, List.length_drop, List.drop_drop]
+
+/-- branch `start = −m`, `stop is None`: the last `m` values -/
+theorem runNegative_neg_none (m : Nat) (hm : 0 < m) (xs : List α) :
+    runNegative (some (-(m : Int))) none xs = .ok (pySlice xs (some (-(m : Int))) none 1) := by
+  rw [pySlice_one, adj_neg _ _ _ hm]
+  have hn : adj xs.length (none : Option Int) xs.length = xs.length := rfl
+  have h1 : ¬ (-(m : Int) ≥ 0) := by omega
+  have hm' : (- -(m : Int)).toNat = m := by omega
+  simp only [runNegative, h1, if_false, hm', drainLeft, dqOfFlow_spec, hn]
+  rw [List.take_of_length_le (by simp)]
+
+/-- branches `start = −m`, `stop = −k` (both sub-cases `stop ≤ start` and `start < stop < 0`) -/
+theorem runNegative_neg_neg (m k : Nat) (hm : 0 < m) (hk : 0 < k) (xs : List α) :
+    runNegative (some (-(m : Int))) (some (-(k : Int))) xs
+      = .ok (pySlice xs (some (-(m : Int))) (some (-(k : Int))) 1) := by
+  rw [pySlice_one, adj_neg _ _ _ hm, adj_neg _ _ _ hk]
+  have h1 : ¬ (-(m : Int) ≥ 0) := by omega
+  have hm' : (- -(m : Int)).toNat = m := by omega
+  simp only [runNegative, h1, if_false, hm']
+  by_cases hle : -(k : Int) ≤ -(m : Int)
+  · have : xs.length - k - (xs.length - m) = 0 := by omega
+    simp [hle, this]
+  · have hlt : -(k : Int) < 0 := by omega
+    simp only [hle, if_false, hlt, if_true, dqOfFlow_spec, List.length_drop]
+    have hc : (((xs.length - (xs.length - m) : Nat) : Int) + -(k : Int)).toNat
+        = xs.length - k - (xs.length - m) := by omega
+    rw [hc, popLeftN_spec _ _ (by simp)]
+
+/-- branch `start = −m`, `stop = b ≥ 0` -/
+theorem runNegative_neg_pos (m b : Nat) (hm : 0 < m) (xs : List α) :
+    runNegative (some (-(m : Int))) (some (b : Int)) xs
+      = .ok (pySlice xs (some (-(m : Int))) (some (b : Int)) 1) := by
+  rw [pySlice_one, adj_neg _ _ _ hm, adj_ofNat]
+  have h1 : ¬ (-(m : Int) ≥ 0) := by omega
+  have hm' : (- -(m : Int)).toNat = m := by omega
+  have h2 : ¬ ((b : Int) ≤ -(m : Int)) := by omega
+  have h3 : ¬ ((b : Int) < 0) := by omega
+  have h4 : ((b : Int) - -(m : Int)).toNat = b + m := by omega
+  simp only [runNegative, h1, if_false, hm', h2, h3, h4]
+  rw [posStopLoop_spec m (b + m) xs 0 [] (Nat.zero_le _), Nat.zero_add]
+  by_cases hlong : b + m < xs.length
+  · have : min b xs.length - (xs.length - m) = 0 := by omega
+    simp [hlong, this]
+  · rw [if_neg hlong]
+    have hd : xs.foldl (dqAppend m) [] = dqOfFlow m xs := rfl
+    simp only [hd, dqOfFlow_spec, popLeftUpTo_spec, List.length_drop]
+    have hc : ((b : Int) - ((xs.length : Int) - ((xs.length - (xs.length - m) : Nat) : Int))).toNat
+        = b - (xs.length - m) := by omega
+    rw [hc]
+    by_cases hb : b ≤ xs.length
+    · rw [Nat.min_eq_left hb]
+    · rw [Nat.min_eq_right (by omega), List.take_of_length_le (by simp; omega),
+        List.take_of_length_le (by simp)]
+
+/-- **`Slice._run_negative_islice` is list slicing**, all seven branches: whenever at least one of
+`start`, `stop` is negative (the only way `Slice.__init__` selects this generator), it yields exactly
+`xs[start:stop]` and never lets an `IndexError` from a deque escape. -/
+theorem runNegative_eq_pySlice (start stop : Option Int) (h : HasNeg start stop) (xs : List α) :
+    runNegative start stop xs = .ok (pySlice xs start stop 1) := by
+  cases start with
+  | none =>
+    rcases h with ⟨i, hi, _⟩ | ⟨i, rfl, hi⟩
+    · cases hi
+    · obtain ⟨k, hk, rfl⟩ := neg_witness i hi
+      exact runNegative_none_neg k hk xs
+  | some a =>
+    by_cases ha : a < 0
+    · obtain ⟨m, hm, rfl⟩ := neg_witness a ha
+      cases stop with
+      | none => exact runNegative_neg_none m hm xs
+      | some j =>
+        by_cases hj : j < 0
+        · obtain ⟨k, hk, rfl⟩ := neg_witness j hj
+          exact runNegative_neg_neg m k hm hk xs
+        · obtain ⟨b, rfl⟩ := nonneg_witness j hj
+          exact runNegative_neg_pos m b hm xs
+    · obtain ⟨a', rfl⟩ := nonneg_witness a ha
+      rcases h with ⟨i, hi, hneg⟩ | ⟨i, rfl, hi⟩
+      · cases hi; omega
+      · obtain ⟨k, hk, rfl⟩ := neg_witness i hi
+        exact runNegative_pos_neg a' k hk xs
+
+example : HasNeg (some (-5)) (some 6) := Or.inl ⟨-5, rfl, by decide⟩
+example : runNegative (some (-5)) (some 6) [0, 1, 2, 3, 4, 5, 6, 7] = .ok [3, 4, 5] := by decide
+
+theorem hasNeg_iff (start stop : Option Int) :
+    HasNeg start stop ↔ ¬ ((noneOrNonneg start && noneOrNonneg stop) = true) := by
+  unfold HasNeg
+  cases start <;> cases stop <;> simp [noneOrNonneg] <;> omega
+
+/-- `.negative` is only ever built with a negative index -/
+theorem mkSlice_negative_hasNeg (start stop step a b : Option Int) (s : Nat)
+    (h : mkSlice start stop step = .negative a b s) : a = start ∧ b = stop ∧ HasNeg start stop := by
+  unfold mkSlice at h
+  by_cases hc : (noneOrNonneg start && noneOrNonneg stop) = true
+  · by_cases hst : noneOrNonneg step = true
+    · simp only [hc, hst, Bool.and_true, if_true] at h
+      split at h <;> cases h
+    · have hs : ∃ t, step = some t ∧ t < 0 := by
+        cases step with
+        | none => simp [noneOrNonneg] at hst
+        | some t => exact ⟨t, rfl, by simpa [noneOrNonneg] using hst⟩
+      obtain ⟨t, rfl, ht⟩ := hs
+      have : mkSlice start stop (some t) = .valueError := slice_rejects_bad_step start stop t (by omega)
+      unfold mkSlice at this
+      rw [this] at h
+      cases h
+  · have hc' : ¬ ((noneOrNonneg start && noneOrNonneg stop && noneOrNonneg step) = true) := by
+      intro h'; apply hc; simp only [Bool.and_eq_true] at h' ⊢; exact h'.1
+    simp only [hc', if_false] at h
+    split at h
+    · cases h
+    · cases h
+      exact ⟨rfl, rfl, (hasNeg_iff start stop).2 hc⟩
+
+theorem pySlice_step (xs : List α) (start stop : Option Int) (s : Nat) :
+    pySlice xs start stop s = everyNth s (pySlice xs start stop 1) := by
+  rw [pySlice_one]; rfl
+
+private theorem adj_start_nonneg (n : Nat) (start : Option Int) (h : noneOrNonneg start = true) :
+    adj n (some ((start.getD 0).toNat : Int)) 0 = adj n start 0 := by
+  cases start with
+  | none => simp [adj]
+  | some a =>
+    have : 0 ≤ a := by simpa [noneOrNonneg] using h
+    have e : ((a.toNat : Nat) : Int) = a := by omega
+    simp only [Option.getD_some, e]
+
+private theorem adj_stop_nonneg (n : Nat) (stop : Option Int) (h : noneOrNonneg stop = true) :
+    adj n ((stop.map Int.toNat).map Int.ofNat) n = adj n stop n := by
+  cases stop with
+  | none => rfl
+  | some a =>
+    have : 0 ≤ a := by simpa [noneOrNonneg] using h
+    have e : Int.ofNat a.toNat = a := by simp only [Int.ofNat_eq_natCast]; omega
+    simp only [Option.map_some, e]
+
+/-- **`Slice(start, stop, step).run(xs)` yields exactly `xs[start:stop:step]`**, for every
+combination of `None`, non-negative and negative `start`/`stop`, every step that is `None` or `≥ 1`,
+and every finite flow; in particular no exception. -/
+theorem slice_run_eq_pyslice (start stop step : Option Int) (hs : GoodStep step) (xs : List α) :
+    sliceRun (mkSlice start stop step) xs
+      = some (.ok (pySlice xs start stop ((step.getD 1).toNat))) := by
+  have h1 := goodStep_getD hs
+  have h1n : 1 ≤ (step.getD 1).toNat := by omega
+  rw [mkSlice_good start stop step hs]
+  by_cases hc : (noneOrNonneg start && noneOrNonneg stop) = true
+  · rw [if_pos hc]
+    simp only [Bool.and_eq_true] at hc
+    simp only [sliceRun]
+    rw [islice_eq_pySlice xs _ _ _ h1n]
+    unfold pySlice
+    simp only [adj_start_nonneg _ _ hc.1, adj_stop_nonneg _ _ hc.2]
+  · rw [if_neg hc]
+    have hneg := (hasNeg_iff start stop).2 hc
+    simp only [sliceRun, runNegative_eq_pySlice start stop hneg xs]
+    rw [pySlice_step xs start stop (step.getD 1).toNat]
+    split
+    · next h => rw [h, everyNth_one]
+    · rfl
+
+example : sliceRun (mkSlice (some (-6)) (some 6) (some 2)) [10, 11, 12, 13, 14, 15, 16]
+    = some (.ok [11, 13, 15]) := by decide
 
 end Lena.C17
